@@ -57,7 +57,7 @@ ASSUMPTIONS = ["executor jobs atomic", "one gateway context at a time"]
 REQUIRED_PROBES = ["exit_before_saver_started", "exit_inside_open", "exit_inside_write", "exit_inside_close",
                    "exit_while_saver_sleeping", "connect_failed", "body_raised", "disconnect_failed",
                    "periodic_saves_96", "kind_sim", "kind_tcp", "kind_serial", "kind_mqtt", "registry_changed_in_body",
-                   "second_context_on_same_gateway",
+                   "second_context_on_same_gateway", "disk_fault_in_first_session",
                    "missing_file_on_entry"]
 SHRINK_LISTS = ("lines", "tapes")
 KINDS = ["sim", "tcp", "serial", "mqtt"]
@@ -135,9 +135,16 @@ def gen(seed: int, i: int, tier: str) -> dict:
         tapes["mqtt.disconnect.lat"] = tapes["disconnect.lat"]
     if rng.random() < 0.1:
         tapes["exec.cancel_skips"] = [rng.choice([0, 1]) for _ in range(6)]
-    return {"cfg": {"kind": kind, "init": init, "image": rand_snap(rng), "body": body, "duration": dur,
-                    "reenter": rng.random() < 0.3, "reenter_for": rng.choice([0, 0.5, 2.5, 901.5])},
-            "lines": lines, "tapes": tapes}
+    cfg = {"kind": kind, "init": init, "image": rand_snap(rng), "body": body, "duration": dur,
+           "reenter": rng.random() < 0.3, "reenter_for": rng.choice([0, 0.5, 2.5, 901.5])}
+    if rng.random() < 0.08 and not any(k for k in tapes if "fail" in k):
+        # the disk fails during the first session (outside this property's fault space: nothing is demanded of that
+        # session); the SECOND session on the same gateway object, with a healthy disk, must satisfy the property
+        cfg["disk_fault"] = [rng.choice(["write", "open", "close"]), rng.randint(1, 4), rng.choice(["ENOSPC", "EIO"])]
+        cfg["reenter"] = True
+        cfg["reenter_for"] = rng.choice([2.5, 901.5, 1801.5])
+        cfg["body"], cfg["duration"] = "sleep", rng.choice([0.5, 2.5, 950.5, 1900.5])
+    return {"cfg": cfg, "lines": lines, "tapes": tapes}
 
 
 class World:
@@ -206,6 +213,9 @@ def _run(scn, cfg, w, res):
         w.disk.files[PATH] = bytearray()
     else:
         res.probes["missing_file_on_entry"] += 1
+    if cfg.get("disk_fault"):
+        kind_f, nth, err_f = cfg["disk_fault"]
+        w.disk.fault_on[kind_f] = [0] * (nth - 1 + (3 if kind_f != "write" else 0)) + [err_f]
     gw = Gateway(transport, Config(persistence_file=PATH))
     # ---- observation of saves ----
     saves = []  # dict(start, end, snap, image, opened)
@@ -314,6 +324,14 @@ def _run(scn, cfg, w, res):
         loop.run_until_idle(0)
         return
     exc = st["exc"]
+    if cfg.get("disk_fault"):
+        fired = any(k.startswith("disk_") for k in w.faults)
+        w.disk.fault_on.clear()
+        if fired:
+            res.probes["disk_fault_in_first_session"] += 1
+            _second_session(scn, cfg, w, gw, kind, res, after_disk_fault=True)
+            res.nontrivial_key = "C16:" + w.elog.digest()[:24]
+            return
     # ---- leftovers ----
     loop.run_until_idle(0)
     left = [x for x in loop.pending_tasks()]
@@ -411,53 +429,77 @@ def _run(scn, cfg, w, res):
         res.violate(PROP, "save-cadence", "saver-stopped", f"last save ended {periodic[-1]['end']}, exit at {st['exit_begin']}")
     if len(periodic) >= 96:
         res.probes["periodic_saves_96"] += 1
-    # ---- entering the same gateway object a second time (a caller's reconnect loop) ----
-    if cfg.get("reenter") and exc is None and kind in ("sim", "tcp", "serial", "mqtt"):
-        res.probes["second_context_on_same_gateway"] += 1
-        w.tapes = Tapes({"exec.lat": [1, 0, 1, 0, 1]})
-        if kind in ("tcp", "serial"):
-            peer2 = SimPeer(w, "peer2")
-            install_network(w, peer2)
-            _serial_mod.open_serial_connection = make_open_serial_connection(w, peer2)
-        from aiomysensors.model.node import Node as _Node
-        st2 = {"exc": None, "done": False}
-
-        async def again():
-            try:
-                async with gw:
-                    await asyncio.sleep(0.5)
-                    gw.nodes[77] = _Node(77, 17, "2.2")
-                    await asyncio.sleep(cfg.get("reenter_for", 2.5))
-            except BaseException as e2:  # noqa: BLE001
-                st2["exc"] = e2
-            st2["done"] = True
-
-        t2 = loop.create_task(again())
-        loop.run_until_idle(5000)
-        if not st2["done"]:
-            res.violate(PROP, "second-context", "hang", "")
-            t2.cancel()
-            loop.run_until_idle(0)
-        elif st2["exc"] is not None:
-            res.violate(PROP, "second-context", f"raised:{type(st2['exc']).__name__}", repr(st2["exc"])[:200])
-        else:
-            left2 = loop.pending_tasks()
-            if left2:
-                names = sorted({getattr(x.get_coro(), "__qualname__", "?").split(".")[-1] for x in left2})
-                res.violate(PROP, "no-task-left-running", f"after-second-exit:{','.join(names)}", "")
-            img = w.disk.image(PATH)
-            w.disk.files["/sim/check.json"] = bytearray(img or b"")
-            loaded2: dict = {}
-            tt = loop.create_task(Persistence(loaded2, "/sim/check.json").load())
-            w.tapes = Tapes({})
-            loop.run_until_idle(10)
-            if not tt.done() or tt.exception() is not None or snapshot(loaded2) != snapshot(gw.nodes):
-                res.violate(PROP, "final-image", "differs-from-registry:second-context",
-                            f"want {sorted(gw.nodes)} got {sorted(loaded2) if tt.done() and not tt.exception() else tt}")
+    if cfg.get("reenter") and exc is None:
+        _second_session(scn, cfg, w, gw, kind, res)
     res.ops = len(saves) + len(scn["lines"]) + 2
     if ph != "sleeping" or w.faults or len(periodic) >= 2:
         res.nontrivial_key = "C16:" + w.elog.digest()[:24]
     res.states.add(("C16", kind, ph, cfg["body"], bool(exc)))
+
+
+def _second_session(scn, cfg, w, gw, kind, res, after_disk_fault=False):
+    """Enter the SAME gateway object again (a caller's reconnect loop) on a healthy disk and link."""
+    loop = w.loop
+    res.probes["second_context_on_same_gateway"] += 1
+    w.tapes = Tapes({"exec.lat": [1, 0, 1, 0, 1]})
+    if kind in ("tcp", "serial"):
+        peer2 = SimPeer(w, "peer2")
+        install_network(w, peer2)
+        _serial_mod.open_serial_connection = make_open_serial_connection(w, peer2)
+    from aiomysensors.model.node import Node as _Node
+    st2 = {"exc": None, "done": False, "entered": None, "left": None}
+    saves2 = []
+
+    def on_submit(func):
+        if isinstance(func, functools.partial) and getattr(func.func, "__self__", None) is w.disk:
+            if "w" in func.keywords.get("mode", "r"):
+                saves2.append(loop.time())
+        return None
+
+    loop.on_exec_submit = on_submit
+
+    async def again():
+        try:
+            async with gw:
+                st2["entered"] = loop.time()
+                await asyncio.sleep(0.5)
+                gw.nodes[77] = _Node(77, 17, "2.2")
+                await asyncio.sleep(cfg.get("reenter_for", 2.5))
+                st2["left"] = loop.time()
+        except BaseException as e2:  # noqa: BLE001
+            st2["exc"] = e2
+        st2["done"] = True
+
+    t2 = loop.create_task(again())
+    loop.run_until_idle(5000)
+    loop.on_exec_submit = None
+    tag = ":after-disk-fault" if after_disk_fault else ""
+    if not st2["done"]:
+        res.violate(PROP, "second-context", "hang" + tag, "")
+        t2.cancel()
+        loop.run_until_idle(0)
+        return
+    if st2["exc"] is not None:
+        res.violate(PROP, "second-context", f"raised:{type(st2['exc']).__name__}{tag}", repr(st2["exc"])[:200])
+        return
+    left2 = loop.pending_tasks()
+    if left2:
+        names = sorted({getattr(x.get_coro(), "__qualname__", "?").split(".")[-1] for x in left2})
+        res.violate(PROP, "no-task-left-running", f"after-second-exit:{','.join(names)}{tag}", "")
+    inside = [x for x in saves2 if st2["entered"] is not None and st2["entered"] <= x <= st2["left"]]
+    if st2["left"] - st2["entered"] > 5 and not inside:
+        res.violate(PROP, "saves-once-entered", "no-save-in-second-context" + tag, f"saves at {saves2}")
+    if st2["left"] - st2["entered"] > 905 and len(inside) < 2:
+        res.violate(PROP, "save-cadence", "no-periodic-save-in-second-context" + tag, f"saves at {saves2}")
+    img = w.disk.image(PATH)
+    w.disk.files["/sim/check.json"] = bytearray(img or b"")
+    loaded2: dict = {}
+    tt = loop.create_task(Persistence(loaded2, "/sim/check.json").load())
+    w.tapes = Tapes({})
+    loop.run_until_idle(10)
+    if not tt.done() or tt.exception() is not None or snapshot(loaded2) != snapshot(gw.nodes):
+        res.violate(PROP, "final-image", "differs-from-registry:second-context" + tag,
+                    f"want {sorted(gw.nodes)} got {sorted(loaded2) if tt.done() and not tt.exception() else tt}")
 
 
 def _phase(st, saves) -> str:
